@@ -16,6 +16,19 @@ from .flow import Pts, path_str
 LEN_FNS = ("std::slice::<impl [T]>::len", "std::str::<impl str>::len", "std::vec::Vec::<T, A>::len", "std::vec::Vec::<T, A>::len")
 
 
+SAME_LEN_VIEWS = ("str::<impl str>::as_bytes", "String::as_bytes", "String::as_str", "Vec::<T, A>::as_slice", "<impl [T]>::as_ref")
+
+
+def _same_len(e):
+    """len(s.as_bytes()) is len(s): byte views have the length of what they view"""
+    for _ in range(3):
+        if isinstance(e, tuple) and e and e[0] == "call" and isinstance(e[1], str) and e[1].endswith(SAME_LEN_VIEWS) and len(e[3]) == 1:
+            e = e[3][0]
+        else:
+            break
+    return e
+
+
 def fold(e):
     """constant-fold ('bin', op, const, const)"""
     if e[0] == "bin" and e[2][0] == "const" and e[3][0] == "const":
@@ -163,7 +176,7 @@ class Resolver:
         d = c.get("def")
         args = tuple(self.op(a, depth + 1) for a in t["args"])
         if d in LEN_FNS and args:
-            return ("len", args[0])
+            return ("len", _same_len(args[0]))
         return ("call", d, c.get("resolved"), args, bi)
 
     def rvalue(self, rv, depth=0):
@@ -174,7 +187,7 @@ class Resolver:
             return fold(("bin", rv["op"], self.op(rv["a"], depth + 1), self.op(rv["b"], depth + 1)))
         if k == "unop":
             if rv["op"] == "PtrMetadata":
-                return ("len", self.op(rv["a"], depth + 1))
+                return ("len", _same_len(self.op(rv["a"], depth + 1)))
             return ("un", rv["op"], self.op(rv["a"], depth + 1))
         if k == "cast":
             inner = self.op(rv["op"], depth + 1)
